@@ -61,6 +61,13 @@ impl LeastSquaresProblem<f64, Dyn, U3> for PointsToCurve<'_> {
     fn set_params(&mut self, x: &Vector<f64, U3, Self::ParameterStorage>) {
         self.params.set(x);
         self.move_points();
+        #[cfg(feature = "verif")]
+        crate::verif_hooks::log_event(
+            "points_to_curve",
+            crate::verif_hooks::EventKind::SetParams,
+            x.as_slice(),
+            &[],
+        );
     }
 
     fn params(&self) -> Vector<f64, U3, Self::ParameterStorage> {
@@ -73,6 +80,14 @@ impl LeastSquaresProblem<f64, Dyn, U3> for PointsToCurve<'_> {
             res[i] = c.scalar_projection(p);
         }
 
+        #[cfg(feature = "verif")]
+        crate::verif_hooks::log_event(
+            "points_to_curve",
+            crate::verif_hooks::EventKind::Residuals,
+            self.params.x().as_slice(),
+            res.as_slice(),
+        );
+
         Some(res)
     }
 
@@ -83,6 +98,14 @@ impl LeastSquaresProblem<f64, Dyn, U3> for PointsToCurve<'_> {
             let values = point_surface_jacobian(p, c, &self.params);
             copy_jacobian(&values, &mut jac, i);
         }
+
+        #[cfg(feature = "verif")]
+        crate::verif_hooks::log_event(
+            "points_to_curve",
+            crate::verif_hooks::EventKind::Jacobian,
+            self.params.x().as_slice(),
+            jac.transpose().as_slice(),
+        );
 
         Some(jac)
     }
